@@ -31,10 +31,10 @@ theorem viewOK_fresh_owned (nb nh seed : Nat) (hnh : 1 ≤ nh) :
   · intro h; simp [isMem, mkOwned] at h
   · intro _; exact ⟨Covers.nil _ _ _ _, (fun x hx => by cases hx), fun _ => rfl⟩
 
-theorem fwf_mkOwned (hP : P.Wire) (nb nh seed : Nat) (hb : badSize P nb nh = false) (hnh : nh < 2 ^ 16) (hseed : seed < 2 ^ 64) :
+omit [DecidableEq ι] in
+theorem fwf_mkOwned (nb nh seed : Nat) (hb : badSize P nb nh = false) (hsmall : nb ≤ 2 ^ 32 - 64) (hnh : nh < 2 ^ 16) (hseed : seed < 2 ^ 64) :
     FWF (mkOwned nb nh seed) := by
   simp only [badSize, Bool.or_eq_false_iff, beq_eq_false_iff_ne, decide_eq_false_iff_not] at hb
-  have hm := hP.maxBits
   refine ⟨?_, ?_, ?_, hnh, hseed⟩ <;> simp only [mkOwned, roundUp64] <;> omega
 
 theorem nh_pos_of_not_bad (nb nh : Nat) (hb : badSize P nb nh = false) : 1 ≤ nh := by
@@ -88,7 +88,7 @@ theorem good_bind_owned (w : World) (p : PGhost ι) (hg : Good P hf w p) (v : Na
       simp only [setV_si, setS_si_ne _ _ (show Key.mem m ≠ Key.own v by intro e; cases e)] at hin
       exact hg.memfull v' f' i' m b' h' hi' hr' hb' hp hin
 
-theorem good_new (hP : P.Wire) (w : World) (p : PGhost ι) (hg : Good P hf w p) (v nb nh seed : Nat) :
+theorem good_new (w : World) (p : PGhost ι) (hg : Good P hf w p) (v nb nh seed : Nat) (hsmall : nb % 2 ^ 64 ≤ 2 ^ 32 - 64) :
     Good P hf (step P Fix.fixed hf w (.new v nb nh seed)).1
       (pstep hf p w (step P Fix.fixed hf w (.new v nb nh seed)).1 (step P Fix.fixed hf w (.new v nb nh seed)).2 (.new v nb nh seed)) := by
   simp only [step, opNew, pstep]
@@ -97,7 +97,7 @@ theorem good_new (hP : P.Wire) (w : World) (p : PGhost ι) (hg : Good P hf w p) 
   · have hb' : badSize P (nb % 2 ^ 64) (nh % 2 ^ 16) = false := by simpa using hb
     simp only [hb', Bool.false_eq_true, if_false, if_true]
     exact good_bind_owned P hf w p hg v _ 0 rfl _ _
-      (fwf_mkOwned P hP _ _ _ hb' (Nat.mod_lt _ (by decide)) (Nat.mod_lt _ (by decide)))
+      (fwf_mkOwned P _ _ _ hb' hsmall (Nat.mod_lt _ (by decide)) (Nat.mod_lt _ (by decide)))
       (viewOK_fresh_owned P hf _ _ _ (nh_pos_of_not_bad P _ _ hb'))
 
 omit [DecidableEq ι] in
